@@ -77,6 +77,28 @@ def build_and_audit():
         return res
 
 
+RECHECK_MODULES = ["CffVerif.Properties2", "CffVerif.Gen.ParCompose", "CffVerif.Gen.Modifier", "CffVerif.Gen.OrderInv",
+                   "CffVerif.Gen.DepsThms", "CffVerif.Sched.WorkCons"]
+
+
+def leanchecker_status():
+    """Thorough tier: the compiled .olean files of the property modules (and, transitively, everything they
+    import) are re-checked by leanchecker, the toolchain's independent re-checker. Cached per Lean source hash."""
+    build_and_audit()
+    with C.locked("lean"):
+        key = C.tree_hash(C.LEAN)
+        stamp = os.path.join(C.cache_dir("lean"), "leanchecker-" + key + ".json")
+        if os.path.exists(stamp):
+            return json.load(open(stamp))
+        t0 = time.time()
+        p = C.sh(["lake", "env", "leanchecker"] + RECHECK_MODULES, cwd=C.LEAN, check=False, timeout=3600)
+        res = {"ok": p.returncode == 0, "modules": RECHECK_MODULES, "output": (p.stdout or "")[-1500:], "wall_s": round(time.time() - t0, 1)}
+        if not res["ok"]:
+            raise C.Infra("leanchecker rejected the compiled project:\n" + res["output"])
+        json.dump(res, open(stamp, "w"))
+        return res
+
+
 def _theorem_at(lines, ln):
     """Name of the theorem whose statement/proof contains (1-based) line ln."""
     name = None
